@@ -20,6 +20,21 @@ def run(ctx):
         q = dict(**{"from": FROM5}, where=wheres[w], list=los[lo]["list"], group=[], order=los[lo]["order"],
                  limit=lims[lm]["limit"], offset=lims[lm]["offset"], style=n % 8)
         cases.append(dict(db={"t5": tables[t]}, q=q, _t=t))
+    # larger tables (12-60 rows drawn from the rows TLC enumerated), stored at page capacities 3/3 so that the table's
+    # tree has three or more levels: "any number of rows" must not depend on how rows are laid out over pages
+    pool_rows = []
+    for t in tables:
+        for r in t["rows"]:
+            if r not in pool_rows:
+                pool_rows.append(r)
+    nbig = 12 if ctx.quick() else 60
+    for b in range(nbig):
+        big = dict(cols=tables[0]["cols"], rows=[rng.choice(pool_rows) for _ in range(rng.randrange(12, 61))])
+        for n in range(40 if ctx.quick() else 150):
+            w, lo, lm = rng.randrange(len(wheres)), rng.randrange(len(los)), rng.randrange(len(lims))
+            q = dict(**{"from": FROM5}, where=wheres[w], list=los[lo]["list"], group=[], order=los[lo]["order"],
+                     limit=lims[lm]["limit"], offset=lims[lm]["offset"], style=n % 8)
+            cases.append(dict(db={"t5": big}, q=q, _t=("big", b), caps=[3, 3]))
     pool = vlib.WorkerPool(ctx, binary)
     try:
         semlib.execute(ctx, pool, cases, lambda c: c["_t"])
